@@ -180,20 +180,22 @@ theorem applyMutEnt_atomic (c : Client) (tick : Nat) (m : MsgEnt) (c' : Client)
 
 /-- `c'` differs from `c` only in the world / entity map / id counter -/
 def Same (c c' : Client) : Prop :=
-  c'.acks = c.acks ∧ c'.buffered = c.buffered ∧ c'.updateTick = c.updateTick ∧ c'.connected = c.connected
+  c'.acks = c.acks ∧ c'.buffered = c.buffered ∧ c'.updateTick = c.updateTick ∧ c'.connected = c.connected ∧
+  c'.notified = c.notified ∧ c'.mutTicks = c.mutTicks
 
-theorem Same.refl (c : Client) : Same c c := ⟨rfl, rfl, rfl, rfl⟩
+theorem Same.refl (c : Client) : Same c c := ⟨rfl, rfl, rfl, rfl, rfl, rfl⟩
 theorem Same.trans {a b c : Client} (h1 : Same a b) (h2 : Same b c) : Same a c :=
-  ⟨h2.1.trans h1.1, h2.2.1.trans h1.2.1, h2.2.2.1.trans h1.2.2.1, h2.2.2.2.trans h1.2.2.2⟩
+  ⟨h2.1.trans h1.1, h2.2.1.trans h1.2.1, h2.2.2.1.trans h1.2.2.1, h2.2.2.2.1.trans h1.2.2.2.1,
+   h2.2.2.2.2.1.trans h1.2.2.2.2.1, h2.2.2.2.2.2.trans h1.2.2.2.2.2⟩
 
 theorem getMapped_same (c : Client) (se : Nat) : Same c (getMapped c se).1 := by
   unfold getMapped
   cases aget c.s2c se with
   | some ce => exact Same.refl c
-  | none => exact ⟨rfl, rfl, rfl, rfl⟩
+  | none => exact ⟨rfl, rfl, rfl, rfl, rfl, rfl⟩
 
 theorem confirm_same (c : Client) (ce t : Nat) : Same c (confirm c ce t) := by
-  unfold confirm; cases aget c.world ce <;> exact ⟨rfl, rfl, rfl, rfl⟩
+  unfold confirm; cases aget c.world ce <;> exact ⟨rfl, rfl, rfl, rfl, rfl, rfl⟩
 
 theorem writeComps_same (ce : Nat) (comps : List (Nat × Nat)) : ∀ (c : Client), Same c (writeComps c ce comps) := by
   unfold writeComps
@@ -209,9 +211,9 @@ theorem writeComps_same (ce : Nat) (comps : List (Nat × Nat)) : ∀ (c : Client
     · simp only [hk, if_true]
       cases hw : aget (getMapped c v).1.world ce with
       | none => exact getMapped_same c v
-      | some ent => exact Same.trans (getMapped_same c v) ⟨rfl, rfl, rfl, rfl⟩
+      | some ent => exact Same.trans (getMapped_same c v) ⟨rfl, rfl, rfl, rfl, rfl, rfl⟩
     · simp only [hk, Bool.false_eq_true, if_false]
-      cases aget c.world ce <;> exact ⟨rfl, rfl, rfl, rfl⟩
+      cases aget c.world ce <;> exact ⟨rfl, rfl, rfl, rfl, rfl, rfl⟩
 
 theorem applyMutEnt_same (c : Client) (tick : Nat) (m : MsgEnt) (c' : Client)
     (h : applyMutEnt c tick m = .ok c') : Same c c' := by
@@ -248,6 +250,32 @@ theorem applyMutates_same : ∀ (l : List Mutate) (c : Client), Same c (l.foldl 
   | nil => intro c; exact Same.refl c
   | cons x xs ih => intro c; rw [List.foldl_cons]; exact Same.trans (applyMutate_same c x) (ih _)
 
+/-- the tracking step touches only the tracker and the list of reported ticks -/
+theorem trackOne_keeps (c : Client) (m : Mutate) :
+    (trackOne c m).acks = c.acks ∧ (trackOne c m).buffered = c.buffered ∧ (trackOne c m).updateTick = c.updateTick ∧
+    (trackOne c m).world = c.world ∧ (trackOne c m).s2c = c.s2c ∧ (trackOne c m).c2s = c.c2s ∧ (trackOne c m).next = c.next := by
+  unfold trackOne
+  cases c.mutTicks with
+  | none => exact ⟨rfl, rfl, rfl, rfl, rfl, rfl, rfl⟩
+  | some s =>
+    simp only
+    cases s.confirm m.tick m.count with
+    | ok r => exact ⟨rfl, rfl, rfl, rfl, rfl, rfl, rfl⟩
+    | err => exact ⟨rfl, rfl, rfl, rfl, rfl, rfl, rfl⟩
+    | panic _ => exact ⟨rfl, rfl, rfl, rfl, rfl, rfl, rfl⟩
+
+theorem trackAll_keeps : ∀ (l : List Mutate) (c : Client),
+    (l.foldl trackOne c).acks = c.acks ∧ (l.foldl trackOne c).buffered = c.buffered := by
+  intro l
+  induction l with
+  | nil => intro c; exact ⟨rfl, rfl⟩
+  | cons x xs ih =>
+    intro c
+    rw [List.foldl_cons]
+    obtain ⟨h1, h2⟩ := ih (trackOne c x)
+    obtain ⟨k1, k2, _⟩ := trackOne_keeps c x
+    exact ⟨h1.trans k1, h2.trans k2⟩
+
 /-- After the F1 repair: a frame acknowledges exactly the mutate messages it applies (those
 whose update tick the client has reached), and keeps the others buffered, unacknowledged. -/
 theorem applyBuffered_acks (c : Client) :
@@ -257,8 +285,11 @@ theorem applyBuffered_acks (c : Client) :
   simp only
   have h := applyMutates_same (c.buffered.filter fun m => !(m.updateTick > c.updateTick))
     { c with buffered := c.buffered.filter fun m => m.updateTick > c.updateTick }
-  obtain ⟨h1, h2, _, _⟩ := h
-  exact ⟨by rw [h1], h2⟩
+  have h' := trackAll_keeps (c.buffered.filter fun m => !(m.updateTick > c.updateTick))
+    ((c.buffered.filter fun m => !(m.updateTick > c.updateTick)).foldl applyMutate
+      { c with buffered := c.buffered.filter fun m => m.updateTick > c.updateTick })
+  obtain ⟨h1, h2, _⟩ := h
+  exact ⟨by rw [h'.1, h1], by rw [h'.2, h2]⟩
 
 /-! ### pre-spawned entities -/
 
